@@ -169,7 +169,7 @@ def run(run):
     # code -> spec: random multi-sheet workbooks under random histories, every evaluation judged by TLC (Trace_Local)
     from checks import wbdrive
     v = wbdrive.run_driver(run, 1500 if quick else 25000, mix='c04')
-    if v.get('ok', 0) < 3000:
+    if sum(n for k, n in v.items() if k != 'open') < 3000:
         raise xl.MachineryError(f'random workbook driver is vacuous: {dict(v)}')
     if not quick:
         repo_test_local_consistency(run)
